@@ -142,7 +142,7 @@ func genC05(seed uint64, tier string) *c05Scenario {
 	burst := func(n, lo, hi, mid int) c05POp {
 		sub++
 		n = max(1, min(n, (512<<10)/hi)) // at most ~512 KiB per burst
-		total += n * (lo + hi) / 2
+		total += n*(lo+hi)/2 + n*mid*2560/1024
 		return c05POp{Kind: "burst", N: n, Lo: lo, Hi: hi, Mid: mid, SizeSeed: core.Mix(seed, 31, sub)}
 	}
 	errOp := func() c05POp { return c05POp{Kind: core.Pick(r, "eof", "eof", "err")} }
@@ -231,7 +231,7 @@ func genC05(seed uint64, tier string) *c05Scenario {
 			cnt++
 		}
 	}
-	if need := total / 3000; sum < need*cnt {
+	if need := total / 1500; sum < need*cnt {
 		s.Reader = append(s.Reader, c05ROp{Kind: "read", N: need * (cnt + 1)})
 	}
 	if r.Chance(1, 5) {
@@ -323,10 +323,12 @@ type c05World struct {
 	held      []c05Held
 	cancelled bool
 	// quiescence state
-	inRead   bool
-	progress int
-	running  int
-	stop     bool
+	inRead    bool
+	readCalls int
+	puts      int
+	progress  int
+	running   int
+	stop      bool
 }
 
 func (w *c05World) now() int { w.tick++; return w.tick }
@@ -610,6 +612,11 @@ func runC05(e *core.Env, s *c05Scenario) {
 						sz = sr.Range(1025, 4096)
 					}
 					w.putData(sz)
+					if w.puts++; w.puts%1200 == 0 {
+						// executing code takes time: keeps one virtual instant below
+						// the runtime's spin-detection limit (50 000 scheduling points)
+						time.Sleep(1)
+					}
 				}
 			}
 		}
@@ -671,7 +678,11 @@ func runC05(e *core.Env, s *c05Scenario) {
 				if w.rb.uncompactedSuffixLen > 0 && w.rb.uncompactedSuffixLen == len(w.rb.backlog) && rd.last == nil {
 					e.Probe("load_from_uncompacted_suffix")
 				}
+				if w.readCalls%400 == 399 {
+					time.Sleep(1) // as in the producer
+				}
 				callStart := w.now()
+				w.readCalls++
 				var got []byte
 				var buf mem.Buffer
 				var err error
@@ -749,24 +760,27 @@ func runC05(e *core.Env, s *c05Scenario) {
 		}
 	})
 
+	// A completed error put, or (without one) any completed DATA put that
+	// has not been delivered, must end a read's wait.
+	pending := func() bool {
+		for _, ep := range w.errs {
+			if ep.end != 0 && !ep.void {
+				return true
+			}
+		}
+		for i := w.fi; i < len(w.frames); i++ {
+			if w.frames[i].end != 0 {
+				return true
+			}
+		}
+		return false
+	}
 	check := func() {
 		if !w.inRead {
 			return
 		}
-		// A completed error put, or (without one) any completed DATA put that
-		// has not been delivered, must end the wait.
-		pending := false
-		for _, ep := range w.errs {
-			if ep.end != 0 && !ep.void {
-				pending = true
-			}
-		}
-		for i := w.fi; i < len(w.frames) && !pending; i++ {
-			if w.frames[i].end != 0 {
-				pending = true
-			}
-		}
-		if pending {
+		call := w.readCalls
+		if simConfirm(func() bool { return w.inRead && w.readCalls == call && pending() }) {
 			e.Violate("reader_stuck", "a read is blocked at quiescence although undelivered data or an error is in the buffer (delivered %d bytes, %d frames and %d errors put)", w.delivered, len(w.frames), len(w.errs))
 			w.stop = true
 		} else {
